@@ -52,6 +52,9 @@ type ATEpisode struct {
 	// StopOnErr: the business returns the first statement / commit error (the
 	// global transaction is then rolled back by the TM)
 	StopOnErr bool `json:"stop_on_err,omitempty"`
+	// RetryOnce: the application runs a failed autocommit statement once more
+	// on the same handle before it gives up (retry after a lock conflict)
+	RetryOnce bool `json:"retry_once,omitempty"`
 	// Fault describes the single injected fault of a C02 episode (informational + oracle)
 	Fault string `json:"fault,omitempty"`
 }
@@ -198,6 +201,9 @@ func (r *atRun) runBusiness(ctx context.Context, ep *ATEpisode, out *[]stmtRes) 
 	}
 	var h handle = r.db
 	if r.plan != nil && r.plan.Opts.DedicatedConn && r.prop != "none" {
+		if r.plan.Opts.FreshConn {
+			r.db.SetMaxIdleConns(0)
+		}
 		if c, err := r.db.Conn(ctx); err == nil {
 			defer c.Close()
 			h = c
@@ -234,10 +240,16 @@ func (r *atRun) runBusiness(ctx context.Context, ep *ATEpisode, out *[]stmtRes) 
 				r.w.Sim.Logf("APP branch %d stmt %d -> affected=%d err=%v", bi, si, sr.Affected, err)
 				if err != nil {
 					failed = true
+					if r.plan != nil && r.plan.Opts.ContinueAfterError && r.prop != "none" {
+						// the application notes the failed statement and carries on with
+						// its transaction (the database has undone the statement only)
+						r.w.Sim.Probe("at-explicit-transaction-continues-after-failed-statement")
+						continue
+					}
 					break
 				}
 			}
-			if failed {
+			if failed && !(r.plan != nil && r.plan.Opts.ContinueAfterError && r.prop != "none") {
 				err = tx.Rollback()
 				*out = append(*out, stmtRes{Branch: bi, Idx: -2, Err: err})
 			} else {
@@ -255,6 +267,11 @@ func (r *atRun) runBusiness(ctx context.Context, ep *ATEpisode, out *[]stmtRes) 
 			}
 			*out = append(*out, sr)
 			r.w.Sim.Logf("APP branch %d stmt %d (autocommit) -> affected=%d err=%v", bi, si, sr.Affected, err)
+			if err != nil && ep.RetryOnce {
+				_, rerr := r.safeExec(ctx, h, st)
+				r.w.Sim.Probe("at-failed-statement-retried-once")
+				r.w.Sim.Logf("APP branch %d stmt %d (autocommit, retried) -> err=%v", bi, si, rerr)
+			}
 		}
 	}
 	return nil
@@ -831,6 +848,17 @@ func (r *atRun) checkImages(o *episodeObs, t *localTxn, fl *undo.BranchUndoLog) 
 		if changed > len(fl.Logs) {
 			r.violate("C18", "image-per-statement", "missing-undo-item", "episode %d: %d statement(s) changed rows but the branch undo log has %d item(s)", o.idx, changed, len(fl.Logs))
 		}
+		// a statement the database executed contributes one item (an upsert that
+		// both inserts and updates: two); a statement that failed contributes none
+		upserts := 0
+		for _, st := range stmts {
+			if strings.Contains(strings.ToUpper(st.SQL), "ON DUPLICATE KEY") {
+				upserts++
+			}
+		}
+		if len(fl.Logs) > len(stmts)+upserts {
+			r.violate("C18", "image-per-statement", "undo-item-without-statement"+epFeatures(o.ep), "episode %d: the branch undo log has %d item(s) for %d executed statement(s) (%d of them upserts): an item belongs to no statement that changed anything", o.idx, len(fl.Logs), len(stmts), upserts)
+		}
 		r.w.Sim.Probe("c18-item-count-differs")
 		return
 	}
@@ -1129,7 +1157,9 @@ func genATPlanTweaked(seed uint64, tier, mode string, tweak func(g *simkit.Gen, 
 	}
 	p.Opts.Params = g.Prob(0.8)
 	p.Opts.DedicatedConn = g.Prob(0.15)
+	p.Opts.FreshConn = p.Opts.DedicatedConn && g.Bool()
 	p.Opts.UniqueIndex = g.Prob(0.25)
+	p.Opts.ContinueAfterError = g.Prob(0.2)
 	p.Opts.UpsertOtherRow = p.Opts.UniqueIndex && g.Prob(0.15)
 	if g.Prob(0.06) {
 		// preset: undo logs dominated by one high-entropy value, under a
